@@ -101,11 +101,15 @@ def run(rep, ctx):
             g = {'A': ta, 'B': Run(t, cat, ps2, 'B-other-patterns'), 'C': Run(subset_tree(t, rng, keep), cat, ps, 'C-siblings-removed'),
                  'D': Run(t, cat, ps, 'D-repeat-same-process', 'given'), 'E': Run(t, cat, ps, 'E-repeat-fresh-process', 'given'),
                  'R': Run(t, cat, list(reversed(ps)), 'R-reversed-order')}
+            # the same patterns with repetitions: the first one again at the end (others in between) and a random one twice
+            psd = list(ps) + [ps[0]]
+            psd.insert(rng.randint(0, len(psd)), rng.choice(ps))
+            g['P'] = Run(t, cat, psd, 'P-repeated-patterns')
             kp = list(keep)[0]
             node = dict((p, e) for p, e in dc.tree_files(t))[kp]
             g['S'] = Run([F(kp[-1], node['data'])], cat, [common_p], 'S-file-alone')
             groups.append(g)
-        order = ['A', 'B', 'C', 'R', 'S', 'D']
+        order = ['A', 'B', 'C', 'R', 'S', 'P', 'D']
         runs = [g[k] for g in groups for k in order]
         evaluate(hz, oracle, runs, rng, 'c15')
         hz.restart()
@@ -122,7 +126,7 @@ def run(rep, ctx):
         cross = []
         for g in groups:
             vm = {k: verdict_map(g[k]) for k in g}
-            for k in ['B', 'C', 'R', 'S', 'D', 'E']:
+            for k in ['B', 'C', 'R', 'S', 'P', 'D', 'E']:
                 if vm['A'] is None or vm[k] is None:
                     if (vm['A'] is None) != (vm[k] is None) and k in ('D', 'E', 'R'):
                         cross.append((g, k, 'one run aborts, the other does not'))
@@ -198,7 +202,7 @@ def run(rep, ctx):
                 nontriv.add((a.coq_tree, a.cat, tuple(a.ps), tuple(g['B'].ps)))
         rep.coverage['evaluations'] = len(runs) + 1
         rep.coverage['distinct_nontrivial'] = len(nontriv)
-        rep.coverage['rule'] = ('groups of 7 real runs per tree (pattern list; other co-selected patterns in another order; sibling files removed; '
+        rep.coverage['rule'] = ('groups of 8 real runs per tree (pattern list; other co-selected patterns in another order; sibling files removed; the list with repeated patterns; '
                                 'reversed pattern order; one file alone; repeated in the same and in a fresh process); for every run model = implementation '
                                 'and, evaluated in Coq on the implementation output, every (eligible file, selected pattern) verdict equals the per-file oracle; '
                                 'cross-run comparison of verdicts; non-trivial group = first run succeeds with findings and >= 2 (file, pattern) pairs. '
